@@ -28,7 +28,7 @@ def main():
              setup_cmd="cd harness && cp -n /repo/Cargo.lock Cargo.lock; CARGO_NET_OFFLINE=true cargo build --offline -q && cd .. && bin/vcheck --selftest",
              hooks=dict(guard="cfg(temporal_verif)", enable="harness/.cargo/config.toml passes rustflags --cfg temporal_verif (RUSTFLAGS='--cfg temporal_verif --check-cfg cfg(temporal_verif)')",
                         baseline_off_cmd="cd /repo && cargo test --workspace --no-fail-fast --offline",
-                        source_commits=["207d4ac", "353e56f", "7a87cc5"], add_only=True),
+                        source_commits=["207d4ac", "353e56f", "7a87cc5", "41e256c"], add_only=True),
              engines=[dict(name="vcheck", path="bin/vcheck", serves_properties=sorted(CLAIMED),
                            kind_free_text="python orchestrator: TLC model checking of spec/*.tla, TLC case generation -> Rust replay harness (harness/), Rust seeded recorders -> TLC trace validation (spec/trace), Apalache lemmas (spec/apa)")],
              checks=checks,
